@@ -19,7 +19,7 @@ def _mo():
 
 def arr(name, n):
     if name == "atcoords":
-        return np.arange(3.0 * n).reshape(n, 3) * 0.5
+        return (np.arange(3.0 * n).reshape(n, 3) * 0.5) if n else np.zeros((0, 3))
     if name == "atgradient":
         return -np.arange(3.0 * n).reshape(n, 3) * 0.25
     if name == "atmasses":
@@ -31,14 +31,14 @@ def arr(name, n):
 
 # value menus, simplest first. Values are (label, factory)
 MENU = {
-    "atnums": [None, (1, 1), (8, 1), (8, 1, 1)],
-    "atcorenums": [None, (1.0, 1.0), (6.0, 1.0), (0.0, 1.0, 1.0)],
+    "atnums": [None, (1, 1), (8, 1), (8, 1, 1), ()],
+    "atcorenums": [None, (1.0, 1.0), (6.0, 1.0), (0.0, 1.0, 1.0), ()],
     "charge": [None, 0, 1, -0.5],
     "nelec": [None, 2, 9, 1.5],
     "spinpol": [None, 0, 1],
     "mo": [None, "MO"],
-    "atcoords": [None, 2, 3],
-    "atmasses": [None, 2, 3],
+    "atcoords": [None, 2, 3, 0],
+    "atmasses": [None, 2, 3, 0],
     "atgradient": [None, 2, 3],
     "atfrozen": [None, 2, 3],
 }
